@@ -27,7 +27,7 @@ def load(text: str, globs: dict | None = None, prefix: str = "vfgen") -> types.M
     if globs:
         mod.__dict__.update(globs)
     sys.modules[name] = mod
-    code = compile(text, fname, "exec")
+    code = compile(text, fname, "exec", dont_inherit=True)
     exec(code, mod.__dict__)
     return mod
 
@@ -45,7 +45,7 @@ def load_catching(text: str, globs: dict | None = None, prefix: str = "vfgen"):
     if globs:
         mod.__dict__.update(globs)
     sys.modules[name] = mod
-    code = compile(text, fname, "exec")  # SyntaxError propagates: a harness problem
+    code = compile(text, fname, "exec", dont_inherit=True)  # SyntaxError propagates: a harness problem
     try:
         exec(code, mod.__dict__)
     except Exception as e:  # noqa: BLE001
